@@ -33,7 +33,8 @@ AccessOK(m, k, o) ==
 
 \* ---------------------------------------------------------------- generator
 Ops == {[op |-> "set", key |-> k, val |-> v] : k \in Keys, v \in Vals} \cup {[op |-> "del", key |-> k] : k \in Keys}
-       \cup {[op |-> "reset"], [op |-> "recycle"], [op |-> "fill", n |-> 35]}
+       \cup {[op |-> "reset"], [op |-> "recycle"], [op |-> "fill", n |-> 35], [op |-> "stale"]}
+\* stale: Destroy, then a Set through the OLD pointer (a late writer), then NewContext - which must still start empty
 \* fill: n Set calls with keys f1 .. fn (more parameters than any pattern of the test-suite captures)
 RECURSIVE Fill(_, _)
 Fill(m, n) == IF n = 0 THEN m ELSE Fill(PSet(m, "f" \o ToString(n), "v"), n - 1)
@@ -43,6 +44,6 @@ Next == Len(hist) < Depth /\ \E o \in Ops : ps' = Apply(ps, o) /\ hist' = Append
 Spec == Init /\ [][Next]_vars
 \* Set and Delete behave as on a map; a recycled context is empty
 MapLaws == /\ \A k \in Keys, v \in Vals : PSet(ps, k, v)[k] = v /\ PDel(PSet(ps, k, v), k) = PDel(ps, k) /\ DOMAIN PDel(ps, k) = DOMAIN ps \ {k}
-           /\ (hist # <<>> /\ hist[Len(hist)].op \in {"reset", "recycle"}) => ps = <<>>
+           /\ (hist # <<>> /\ hist[Len(hist)].op \in {"reset", "recycle", "stale"}) => ps = <<>>
 Emit == (Len(hist) > 0 /\ (EmitAll \/ Len(hist) = Depth)) => PrintT("CASE " \o ToJson([fam |-> "params", ops |-> hist, keys |-> Keys]))
 =============================================================================
